@@ -53,6 +53,10 @@ def templates(B=B_DEFAULT):
     T.append(("hardlink-to-fifo", [E(b"zhl", "link", target=b"pipe"), E(b"pipe", "fifo", 0o622)]))
     T.append(("name-space-quote", [E(b"a b/q\"x", "file", content=b"quoted")]))
     T.append(("name-backslash-highbytes", [E(b"b\\s", "dir", 0o711), E(b"b\\s/\xff\xfe", "file", content=b"hb")]))
+    # a directory whose name starts with a byte >= 0x80 (UTF-8), looked up again for each child, next to ASCII and other high-byte siblings
+    T.append(("dir-highbyte-with-children", [E(b"\xc3\xa9t\xc3\xa9/x", "file", content=b"x in ete"), E(b"\xc3\xa9t\xc3\xa9/y", "file", content=b"y in ete"),
+                                             E(b"\xc3\xa9a", "file", content=b"ea"), E(b"a.txt", "file", content=b"ascii sibling"), E(b"\x80", "dir", 0o750),
+                                             E(b"\x80/z", "slink", 0o777, target=b"../a.txt")]))
     T.append(("name-255", [E(b"n" * 255, "file", content=b"255")]))
     T.append(("name-256", [E(b"m" * 256, "file", content=b"256")]))
     T.append(("name-257-unrepresentable", [E(b"w" * 257, "file", content=b"257")]))
